@@ -285,7 +285,14 @@ pub fn relpar<T: HS>(cfg: &Cfg, out: &mut Out<T>) {
                     }};
                 }
                 if par {
-                    run!($par)
+                    // install=1: the parallel flavour is driven from INSIDE a worker of a dedicated pool (rayon then splits the
+                    // work differently from a call that is injected from outside: several columns per job)
+                    if cfg.usize("install", 0) == 1 {
+                        let pool = rayon::ThreadPoolBuilder::new().num_threads(cfg.usize("threads", 1).max(1)).build().expect("local rayon pool");
+                        pool.install(|| run!($par))
+                    } else {
+                        run!($par)
+                    }
                 } else {
                     run!($seq)
                 }
